@@ -113,7 +113,7 @@ def connect (t : Target) (a : AlpnKind) (dh ah : List Hook) : Outcome :=
       | none =>
         let ac := runAfter 0 ah
         match ac.2 with
-        | some c => ⟨b.1, d.1, .closed (c + 1), some ac.1, .rejAfter⟩
+        | some c => ⟨b.1, d.1, .closed c, some ac.1, .rejAfter⟩
         | none => ⟨b.1, d.1, .estab, some ac.1, .estab⟩
 
 /-- Something left the dialer (the acceptor saw an `Incoming`). -/
